@@ -162,7 +162,39 @@ impl<'p, 'a> Evaluator<'a, 'p> {
             }
         }
 
+        #[cfg(rsjsonnet_verif)]
+        {
+            let verif_kind = match output_kind {
+                OutputKind::Value if this.state_stack.len() == 2 => 0,
+                OutputKind::Value => 1,
+                OutputKind::String => 2,
+            };
+            let verif_limit = this.program.max_stack;
+            crate::verif::take_frames_dirty();
+            crate::verif::emit(|| crate::verif::Event::EvalBegin {
+                kind: verif_kind,
+                limit: verif_limit,
+            });
+        }
+        #[cfg(rsjsonnet_verif)]
+        if let Err(e) = this.run() {
+            let verif_frames = this.stack_trace_len;
+            crate::verif::emit(|| crate::verif::Event::EvalEnd {
+                ok: false,
+                frames: verif_frames,
+            });
+            return Err(e);
+        }
+        #[cfg(not(rsjsonnet_verif))]
         this.run()?;
+        #[cfg(rsjsonnet_verif)]
+        {
+            let verif_frames = this.stack_trace_len;
+            crate::verif::emit(|| crate::verif::Event::EvalEnd {
+                ok: true,
+                frames: verif_frames,
+            });
+        }
 
         let output = match output_kind {
             OutputKind::Value => EvalOutput::Value(this.value_stack.pop().unwrap()),
@@ -190,9 +222,25 @@ impl<'p, 'a> Evaluator<'a, 'p> {
                 State::FnFallible(f) => f(self)?,
                 State::TraceItem(_) => {
                     self.dec_trace_len();
+                    #[cfg(rsjsonnet_verif)]
+                    {
+                        let verif_frames = self.stack_trace_len;
+                        crate::verif::mark_frames_dirty();
+                        crate::verif::emit(|| crate::verif::Event::FramePop {
+                            frames: verif_frames,
+                        });
+                    }
                 }
                 State::DelayedTraceItem => {
                     self.inc_trace_len();
+                    #[cfg(rsjsonnet_verif)]
+                    {
+                        let verif_frames = self.stack_trace_len;
+                        crate::verif::mark_frames_dirty();
+                        crate::verif::emit(|| crate::verif::Event::FrameResume {
+                            frames: verif_frames,
+                        });
+                    }
                 }
                 State::DiscardValue => {
                     self.value_stack.pop().unwrap();
@@ -240,6 +288,10 @@ impl<'p, 'a> Evaluator<'a, 'p> {
                         }
                     }
                     ThunkState::InProgress => {
+                        #[cfg(rsjsonnet_verif)]
+                        crate::verif::emit(|| crate::verif::Event::InfRec {
+                            id: thunk.verif_id(),
+                        });
                         return Err(self.report_error(EvalErrorKind::InfiniteRecursion));
                     }
                 },
@@ -1537,7 +1589,33 @@ impl<'p, 'a> Evaluator<'a, 'p> {
                 State::StdMergePatchField { name } => self.do_std_merge_patch_field(name),
             }
 
+            #[cfg(rsjsonnet_verif)]
+            {
+                if let Some(ValueData::Number(n)) = self.value_stack.last() {
+                    if !n.is_finite() {
+                        let verif_class = if n.is_nan() { 2 } else { 1 };
+                        crate::verif::emit(|| crate::verif::Event::NonFinite { class: verif_class });
+                    }
+                }
+                if crate::verif::take_frames_dirty() {
+                    let verif_frames = self.stack_trace_len;
+                    let verif_limit = self.program.max_stack;
+                    crate::verif::emit(|| crate::verif::Event::Step {
+                        frames: verif_frames,
+                        limit: verif_limit,
+                    });
+                }
+            }
             if self.stack_trace_len > self.program.max_stack {
+                #[cfg(rsjsonnet_verif)]
+                {
+                    let verif_frames = self.stack_trace_len;
+                    let verif_limit = self.program.max_stack;
+                    crate::verif::emit(|| crate::verif::Event::Overflow {
+                        frames: verif_frames,
+                        limit: verif_limit,
+                    });
+                }
                 return Err(self.report_error(EvalErrorKind::StackOverflow));
             }
 
@@ -1551,12 +1629,28 @@ impl<'p, 'a> Evaluator<'a, 'p> {
     fn push_trace_item(&mut self, item: TraceItem<'p>) {
         self.state_stack.push(State::TraceItem(item));
         self.inc_trace_len();
+        #[cfg(rsjsonnet_verif)]
+        {
+            let verif_frames = self.stack_trace_len;
+            crate::verif::mark_frames_dirty();
+            crate::verif::emit(|| crate::verif::Event::FramePush {
+                frames: verif_frames,
+            });
+        }
     }
 
     #[inline]
     fn delay_trace_item(&mut self) {
         self.state_stack.push(State::DelayedTraceItem);
         self.dec_trace_len();
+        #[cfg(rsjsonnet_verif)]
+        {
+            let verif_frames = self.stack_trace_len;
+            crate::verif::mark_frames_dirty();
+            crate::verif::emit(|| crate::verif::Event::FrameDelay {
+                frames: verif_frames,
+            });
+        }
     }
 
     #[inline]
